@@ -41,6 +41,72 @@ def quiet_logging():
     logging.getLogger("glasflow").setLevel(logging.ERROR)
 
 
+def result_digest(fs, ins=False):
+    """Byte digest of the result-bearing outputs (posterior samples are re-drawn at random by design and excluded)."""
+    import hashlib
+
+    ns = fs.ns
+    h = hashlib.sha256()
+    if ins:
+        parts = [ns.samples_unit.tobytes(), np.asarray(ns.log_posterior_weights).tobytes(), repr(float(ns.log_evidence)).encode(),
+                 repr(float(ns.log_evidence_error)).encode()]
+    else:
+        parts = [np.array(ns.nested_samples).tobytes(), np.asarray(ns.state.log_posterior_weights).tobytes(), repr(float(ns.state.logZ)).encode(),
+                 repr(list(ns.insertion_indices)).encode()]
+    for p_ in parts:
+        h.update(p_)
+    return h.hexdigest(), int(ns.total_likelihood_evaluations)
+
+
+def idempotence(fs, model, case, kw, mon, ins=False):
+    """C15: run() again and resume-after-finish must return the same results without evaluating the likelihood."""
+    from nessai.flowsampler import FlowSampler
+    from vlib import zoo
+
+    def where(tb):
+        fn = [l.split(", in ")[-1].strip() for l in tb.splitlines() if l.strip().startswith("File ") and "/nessai/" in l][-1:]
+        return fn[0] if fn else "?"
+
+    d1, e1 = result_digest(fs, ins)
+    pts1 = model.b_points
+    mon.bump("C15.second_run_checked")
+    try:
+        fs.run(plot=False, save=False, **case.get("run_kwargs", {}))
+    except Exception as e:
+        mon.problem("C15", f"second-run-raises:{type(e).__name__}@{where(traceback.format_exc())}", str(e)[:200])
+        return
+    d2, e2 = result_digest(fs, ins)
+    if d2 != d1:
+        mon.problem("C15", "second-run-changes-results", (d1[:12], d2[:12]))
+    if model.b_points != pts1 or e2 != e1:
+        mon.problem("C15", "second-run-evaluates-likelihood", dict(calls=model.b_points - pts1, counter=e2 - e1))
+    rf = os.path.join(case["outdir"], "nested_sampler_resume.pkl")
+    if not (os.path.exists(rf) or os.path.exists(rf + ".old")):
+        # e.g. prior_sampling=True returns before the final checkpoint is written: nothing to resume from, the clause is vacuous
+        mon.bump("C15.no_final_checkpoint_written")
+        return
+    model3 = zoo.make(case["model"], **case.get("model_kwargs", {}))
+    mon.model = model3
+    mon.bump("C15.resume_after_finish_checked")
+    try:
+        fs3 = FlowSampler(model3, output=case["outdir"], resume=True, importance_nested_sampler=ins, signal_handling=False, **kw)
+        fs3.run(plot=False, save=False, **case.get("run_kwargs", {}))
+    except Exception as e:
+        mon.problem("C15", f"resume-after-finish-raises:{type(e).__name__}@{where(traceback.format_exc())}", str(e)[:200])
+        return
+    d3, e3 = result_digest(fs3, ins)
+    if d3 != d1:
+        mon.problem("C15", "resume-after-finish-changes-results", (d1[:12], d3[:12]))
+    if model3.b_points != 0:
+        mon.problem("C15", "resume-after-finish-evaluates-likelihood", model3.b_points)
+    if e3 != e1:
+        mon.problem("C15", "resume-after-finish-changes-evaluation-count", (e1, e3))
+    try:
+        model3.close_pool()
+    except Exception:
+        pass
+
+
 def run_standard(case):
     """case: model, model_kwargs, kwargs (FlowSampler), run_kwargs, resume_at (iteration or None), outdir, props (tags to report)."""
     from vlib.common import assert_repo
@@ -91,6 +157,8 @@ def run_standard(case):
             mon.check_stopping(ns)
         rp = check_standard_result(fs, model, mon)
         boundary.append(model.boundary_summary())
+        if case.get("idempotence") and ns.finalised:
+            idempotence(fs, model, case, kw, mon, ins=False)
         res.update(iterations=int(ns.iteration), nlive=int(ns.nlive), n_nested=len(ns.nested_samples), finalised=bool(ns.finalised),
                    logZ=float(fs.logZ), logZ_error=float(fs.logZ_error), populations=int(getattr(ns._flow_proposal, "populated_count", 0)),
                    trainings=int(ns._flow_proposal.training_count), evals=int(ns.total_likelihood_evaluations),
@@ -180,6 +248,8 @@ def run_ins(case):
         ns = fs.ns
         rp = check_ins_result(fs, model, mon)
         boundary.append(model.boundary_summary())
+        if case.get("idempotence") and ns.finalised:
+            idempotence(fs, model, case, kw, mon, ins=True)
         res.update(iterations=int(ns.iteration), nlive=int(ns.nlive), n_samples=len(ns.samples_unit), finalised=bool(ns.finalised),
                    logZ=float(fs.logZ), logZ_error=float(fs.logZ_error), evals=int(ns.total_likelihood_evaluations), result_checks=rp,
                    n_proposals=int(ns.proposal.n_proposals), criterion=[float(c) for c in ns.criterion])
